@@ -389,6 +389,7 @@ def path_returns(fn, limit=256):
                     env2[x.id] = ast.Name(id=f"?{x.id}", ctx=ast.Load())
             for hd in st.handlers:
                 ex = ast.Call(func=ast.Name(id="__except__", ctx=ast.Load()), args=[hd.type] if hd.type is not None else [], keywords=[])
+                ex._try = st
                 run(hd.body, env2, guards + [(ex, True)], effects, lambda e, g, f: run(st.finalbody, e, g, f, nxt))
             return
         if isinstance(st, ast.With):
